@@ -223,7 +223,9 @@ func run(c *harness.Ctx, i int) {
 	}
 	uncompressed := rng.Intn(2) == 0
 	dir := c.CaseDir()
-	b := &backend{kind: kind, dir: filepath.Join(dir, "store")}
+	// the store directory has an ordinary name, a hidden one, one with blanks ...
+	storeName := []string{"store", "store", ".desync-cache", "my store", ".store.d", "0000"}[rng.Intn(6)]
+	b := &backend{kind: kind, dir: filepath.Join(dir, storeName)}
 	os.MkdirAll(b.dir, 0755)
 	if kind == "s3" {
 		b.s3 = fakes.NewS3("bucket")
@@ -251,10 +253,18 @@ func run(c *harness.Ctx, i int) {
 	opt := desync.StoreOptions{Uncompressed: uncompressed, N: 2, ErrorRetry: 0}
 	// local stores are sometimes addressed through a symlink to the directory
 	addr := b.dir
+	cliDir := ""
 	if strings.HasPrefix(kind, "local") && rng.Intn(4) == 0 {
 		addr = filepath.Join(dir, "store-link")
 		os.Symlink(b.dir, addr)
 		cats["via-symlink"] = true
+	} else if kind == "local-cli" && rng.Intn(4) == 0 {
+		// ... or is the current directory of the command
+		addr, cliDir = ".", b.dir
+		cats["via-dot"] = true
+	}
+	if storeName != "store" {
+		cats["name:"+storeName] = true
 	}
 	cfgFile := filepath.Join(dir, "config.json")
 	// the config entry of the store may also say "skip-verify" (sensible for reading from it, meaningless for `verify`)
@@ -313,6 +323,7 @@ func run(c *harness.Ctx, i int) {
 			dsu.Must(dsu.WriteIndex(idxFile, idx))
 			cmd := exec.Command(cli, "--config", cfgFile, "prune", "-y", "-s", addr, idxFile)
 			cmd.Env = append(os.Environ(), "HOME="+dir)
+			cmd.Dir = cliDir
 			var out []byte
 			out, err = cmd.CombinedOutput()
 			if err != nil {
@@ -460,6 +471,7 @@ func run(c *harness.Ctx, i int) {
 		}
 		cmd := exec.Command(cli, args...)
 		cmd.Env = append(os.Environ(), "HOME="+dir)
+		cmd.Dir = cliDir
 		cmd.Stderr = &msgs
 		if unpriv {
 			cmd.SysProcAttr = &syscall.SysProcAttr{Credential: &syscall.Credential{Uid: 65534, Gid: 65534}}
